@@ -5,7 +5,8 @@ CONSTANTS
   BaseSeq <- BasesTiny
   WrapSeq <- WrapsTiny
   RenSeq <- RensMC
-  DocSet <- DocBoth
+  DocSet <- DocAll
+  IntFull = FALSE
   Family = "all"
   MaxFields = 1
   MaxDepth = 3
